@@ -162,7 +162,35 @@ fn check_single(t: &Tensor, seq: &[f32], what: &str) -> CheckResult {
 fn check(case: &Case, ev: &mut CaseEv) -> CheckResult {
     let n = case.src[0] * case.src[1] * case.src[2];
     let seq = contents(n, case.content, case.seed);
-    let src3 = tens::triple(case.src[0], case.src[1], case.src[2], &seq);
+    // one case in four: the rows of the source are vectors with spare capacity (filled element by element into
+    // pre-sized buffers, as a caller building a tensor incrementally would); `Vec::clone` drops spare capacity, so
+    // such a source is built afresh wherever the check below needs an owned copy
+    let spare = (case.seed >> 9) & 3 == 3;
+    let mk3 = || -> Tensor {
+        if !spare {
+            return tens::triple(case.src[0], case.src[1], case.src[2], &seq);
+        }
+        let (h, w) = (case.src[1], case.src[2]);
+        let extra = 1 + (case.seed as usize >> 11) % 7;
+        let data: Vec<Vec<Vec<f32>>> = (0..case.src[0])
+            .map(|c| {
+                (0..h)
+                    .map(|r| {
+                        let mut row = Vec::with_capacity(w + if (c + r) % 2 == 0 { extra } else { 2 * extra });
+                        for k in 0..w {
+                            row.push(seq[(c * h + r) * w + k]);
+                        }
+                        row
+                    })
+                    .collect()
+            })
+            .collect();
+        Tensor::triple(data)
+    };
+    let src3 = mk3();
+    if spare {
+        ev.class("source rows with spare capacity");
+    }
     let big_axes = case.src.iter().filter(|&&d| d > 1).count();
     let nonsquare = case.src[1] != case.src[2];
     ev.nontrivial = big_axes >= 2 && nonsquare;
@@ -198,7 +226,7 @@ fn check(case: &Case, ev: &mut CaseEv) -> CheckResult {
             check_triple_rowmajor(&Tensor::triple(d), case.src, &seq, "get_triple(3-D) (identity)")
         }
         Op::ReshapeTT => {
-            let r = catch(|| src3.clone().reshape(d3.clone())).map_err(|p| Fail::new(format!("reshape {:?}->{:?} (equal count) refused: {p}", case.src, case.dst)))?;
+            let r = catch(|| mk3().reshape(d3.clone())).map_err(|p| Fail::new(format!("reshape {:?}->{:?} (equal count) refused: {p}", case.src, case.dst)))?;
             check_triple_rowmajor(&r, case.dst, &seq, "reshape 3-D -> 3-D")?;
             let back = catch(|| r.reshape(Shape::Triple(case.src[0], case.src[1], case.src[2]))).map_err(|p| Fail::new(format!("reshape back refused: {p}")))?;
             check_triple_rowmajor(&back, case.src, &seq, "reshape there and back")
@@ -211,7 +239,7 @@ fn check(case: &Case, ev: &mut CaseEv) -> CheckResult {
             check_single(&back, &seq, "reshape vector -> 3-D -> vector")
         }
         Op::ReshapeTS => {
-            let r = catch(|| src3.clone().reshape(Shape::Single(n))).map_err(|p| Fail::new(format!("reshape {:?}->vector refused: {p}", case.src)))?;
+            let r = catch(|| mk3().reshape(Shape::Single(n))).map_err(|p| Fail::new(format!("reshape {:?}->vector refused: {p}", case.src)))?;
             check_single(&r, &seq, "reshape 3-D -> vector")?;
             let back = catch(|| r.reshape(Shape::Triple(case.src[0], case.src[1], case.src[2]))).map_err(|p| Fail::new(format!("reshape back refused: {p}")))?;
             check_triple_rowmajor(&back, case.src, &seq, "reshape 3-D -> vector -> 3-D")
@@ -220,9 +248,9 @@ fn check(case: &Case, ev: &mut CaseEv) -> CheckResult {
             let m = case.dst[0] * case.dst[1] * case.dst[2];
             ensure!(m != n, "harness: unequal case has equal counts");
             let r = match kind {
-                0 => catch(|| src3.clone().reshape(d3.clone())).map(|t| (t.shape.clone(), tens::flat(&t).len())),
+                0 => catch(|| mk3().reshape(d3.clone())).map(|t| (t.shape.clone(), tens::flat(&t).len())),
                 1 => catch(|| Tensor::single(seq.clone()).reshape(d3.clone())).map(|t| (t.shape.clone(), tens::flat(&t).len())),
-                _ => catch(|| src3.clone().reshape(Shape::Single(m))).map(|t| (t.shape.clone(), tens::flat(&t).len())),
+                _ => catch(|| mk3().reshape(Shape::Single(m))).map(|t| (t.shape.clone(), tens::flat(&t).len())),
             };
             match r {
                 Err(_) => Ok(()), // refused
@@ -233,7 +261,7 @@ fn check(case: &Case, ev: &mut CaseEv) -> CheckResult {
             }
         }
         Op::Chain(_) => {
-            let mut cur = src3.clone();
+            let mut cur = mk3();
             let mut dims_hist = vec![case.src];
             for (i, st) in case.steps.iter().enumerate() {
                 let via_vec = (case.seed >> i) & 1 == 1;
@@ -289,7 +317,7 @@ impl Prop for C14 {
         t.pick(1_000_000, 100_000_000)
     }
     fn rule(&self) -> String {
-        "tape-decoded (operation, source shape with axes 1..6 (thorough 1..12; one case in 40 is a large tensor of >= 16384 elements with 1..7+ channels), target = a factorisation of the element count or a shape with a different count, contents class incl. signed zeros/subnormals/f32::MAX/+-infinity/NaN (also in the last position), chains of up to 5 reshapes optionally via a vector). Oracle: explicit row-major index arithmetic c*H*W+h*W+w, bitwise. Non-trivial: >= 2 axes > 1 and height != width. Distinct = (operation, source shape, target shape).".into()
+        "tape-decoded (operation, source shape with axes 1..6 (thorough 1..12; one case in 40 is a large tensor of >= 16384 elements with 1..7+ channels), target = a factorisation of the element count or a shape with a different count, contents class incl. signed zeros/subnormals/f32::MAX/+-infinity/NaN (also in the last position), chains of up to 5 reshapes optionally via a vector; in one case of four the rows of the 3-D source are vectors with spare capacity, filled element by element). Oracle: explicit row-major index arithmetic c*H*W+h*W+w, bitwise. Non-trivial: >= 2 axes > 1 and height != width. Distinct = (operation, source shape, target shape).".into()
     }
     fn run_case(&self, tape: &[u32], ev: &mut CaseEv) -> CheckResult {
         check(&decode(tape, self.0), ev)
